@@ -25,8 +25,12 @@ ASSUMPTIONS = ["single-process server: operations are atomic w.r.t. each other (
 
 
 def generate(seed, tier):
+    if seed % 40 == 13:
+        return storesim.gen_huge(seed, tier, "C25")        # sparse shares around the 4 GiB mark
     return storesim.gen_case(seed, tier, "lease")
 
 
 def execute(case):
+    if case.get("profile") == "huge":
+        return storesim.exec_huge(case)
     return storesim.execute(case, ("C25",))
